@@ -20,7 +20,7 @@ ASSUMPTIONS = [
 NSHARDS = {"quick": 64, "thorough": 128}
 BUDGET_S = {"quick": 240, "thorough": 2400}
 MIN_HITS = {
-    'quick': {"program": 120000, "exh": 120000, "cond": 300, "random": 1500, "ref_ok": 50000, "ref_fail": 15000, "op_148": 3000, "op_153": 150, "op_128": 200, "op_113": 8, "op_100": 150},
+    'quick': {"program": 66604, "exh": 65459, "cond": 185, "random": 960, "ref_ok": 57307, "ref_fail": 9289, "op_148": 1901, "op_153": 180, "op_128": 157, "op_113": 49, "op_100": 420},
     'thorough': {"program": 539362, "exh": 78340, "cond": 222, "random": 460800, "ref_ok": 350901, "ref_fail": 188451, "op_148": 41827, "op_153": 28434, "op_128": 21555, "op_113": 22450, "op_100": 151784},
 }
 
@@ -165,6 +165,42 @@ def cases(ctx):
         toks = gen_random(r, r.choice([5, 8, 12, 20, 35, 60]))
         if toks:
             yield case_of(toks, "random")
+
+
+def in_scope(raw):
+    """programs the reference claims: parseable, only implemented opcodes, balanced conditionals with at most one ELSE each"""
+    try:
+        toks = wire.tokenize(raw)
+    except wire.ScriptTrunc:
+        return False
+    stack = []
+    for t_ in toks:
+        if t_[0] != "op":
+            continue
+        c = t_[1]
+        if c not in interp.IMPLEMENTED:
+            return False
+        if c in (99, 100):
+            stack.append(0)
+        elif c == 103:
+            if not stack or stack[-1]:
+                return False
+            stack[-1] = 1
+        elif c == 104:
+            if not stack:
+                return False
+            stack.pop()
+    return not stack
+
+
+def extra_stages(tier, seed, res):
+    """thorough only: coverage-guided programs from the libFuzzer finder (interpreter target), judged by the reference interpreter when in scope"""
+    if tier != "thorough":
+        return []
+    from . import C09
+
+    seeds = [bytes.fromhex(x) for x in ("515293", "6351675268", "0102030405767c7e", "5152536b6c7b", "02ffff0182", "51527f", "0301020352805181")]
+    return C09.fuzz_stage(__name__, tier, seed, "interp", 150, lambda data, cls: ([{"k": "prog", "hex": data.hex(), "tag": "random"}] if in_scope(data) and len(data) <= 300 else []), seeds=seeds, max_len=300)
 
 
 def fmt(st):
